@@ -334,14 +334,22 @@ func cmdWorker(args []string) {
 	for _, t := range trees {
 		Flatten(t)
 	}
-	scs := loadLines(*scenF)
+	// only this worker's share of the scenarios is kept in memory
+	var scs [][]byte
+	k := 0
+	readLines(*scenF, func(line []byte) {
+		if k >= *from && k < *to {
+			scs = append(scs, append([]byte{}, bytes.TrimSpace(line)...))
+		}
+		k++
+	})
 	fo, err := os.OpenFile(*out, os.O_APPEND|os.O_CREATE|os.O_WRONLY, 0o644)
 	if err != nil {
 		die(2, "%v", err)
 	}
 	initCapture(os.TempDir())
-	for i := *from; i < *to && i < len(scs); i++ {
-		fo.Write(marshalLine(famOf(scs[i]).run(trees, scs[i])))
+	for _, sc := range scs {
+		fo.Write(marshalLine(famOf(sc).run(trees, sc)))
 	}
 	fo.Close()
 }
